@@ -55,7 +55,7 @@ func profileByName(name string, r *rand.Rand) Profile {
 		p.AppLagPct, p.WNet, p.DropPct, p.StalePct, p.WTick, p.CampaignPct, p.CrashPct, p.WPropose, p.ReadyLagPct = 85, 2, 5, 30, 20, 100, 5, 14, 20
 		p.WMisc, p.CCPct, p.TransferPct, p.CompactPct = 12, 5, 5, 10
 		p.HostileMin, p.CalmMin = 200, 100
-		p.SelfStallPct, p.FavourPct = 100, 80
+		p.SelfStallPct, p.FavourPct = 100, 90
 	case "snapshot-lag":
 		// snapshots and compaction while storage threads lag and terms change
 		p.CompactPct, p.WMisc, p.AppLagPct, p.DropPct, p.WTick, p.CampaignPct, p.WNet, p.CrashPct, p.CCPct, p.WPropose = 100, 9, 85, 10, 22, 40, 5, 15, 30, 9
@@ -369,6 +369,19 @@ func (w *World) Gen(r *rand.Rand) Action {
 				if len(as) > 0 {
 					w.stallNode = as[r.Intn(len(as))]
 					w.stallEnd = w.phaseEnd + r.Intn(p.CalmMin+1)
+					w.stallStart, w.rivalStage, w.rivalA, w.rivalB = w.step, 0, 0, 0
+					if l := w.topLeader(); p.FavourPct > 0 && l != nil {
+						// the current leader and one rival that is not the slow node
+						var bs []uint64
+						for _, id := range w.ids {
+							if n := w.nodes[id]; n.up() && id != l.id && id != w.stallNode {
+								bs = append(bs, id)
+							}
+						}
+						if len(bs) > 0 && l.id != w.stallNode {
+							w.rivalA, w.rivalB = l.id, bs[r.Intn(len(bs))]
+						}
+					}
 				}
 			}
 		} else {
@@ -392,6 +405,20 @@ func (w *World) Gen(r *rand.Rand) Action {
 				a = lo + uint64(r.Intn(int(hi-lo)+1))
 			}
 			return Action{K: "restart", N: n.id, A: a}
+		}
+	}
+	// rival-leaders: inside the window the rival, then the first leader again, then
+	// the slow node itself call an election (at 30%, 55% and 80% of the hostile
+	// phase); everything else stays random
+	if w.rivalA != 0 && w.step < w.phaseEnd && w.hostile {
+		span := w.phaseEnd - w.stallStart
+		at := []int{30, 55, 80}
+		if w.rivalStage < 3 && (w.step-w.stallStart)*100 >= at[w.rivalStage]*span {
+			who := []uint64{w.rivalB, w.rivalA, w.stallNode}[w.rivalStage]
+			w.rivalStage++
+			if n := w.nodes[who]; n != nil && n.up() {
+				return Action{K: "campaign", N: who}
+			}
 		}
 	}
 	ups := w.upNodes()
@@ -463,8 +490,11 @@ func (w *World) Gen(r *rand.Rand) Action {
 				continue
 			}
 			if it.k == "deliver" && p.FavourPct > 0 && hostile && w.step < w.stallEnd {
-				if nm := w.net[int(it.a)]; nm != nil && nm.typ == pb.MsgApp && nm.to != w.stallNode && len(nm.data) > 40 && pct(r, p.FavourPct) {
-					return Action{K: "drop", A: it.a}
+				if nm := w.net[int(it.a)]; nm != nil && nm.typ == pb.MsgApp && nm.to != w.stallNode && pct(r, p.FavourPct) {
+					var m pb.Message
+					if proto.Unmarshal(nm.data, &m) == nil && len(m.GetEntries()) > 0 {
+						return Action{K: "drop", A: it.a}
+					}
 				}
 			}
 			if it.k == "deliver" {
